@@ -280,9 +280,27 @@ def h_tid_monotonic(c0: int, c1: int, c2: int, c3: int, c4: int, storage: str, r
     with untraced():
         if storage == 'file':
             env, s, h = T.build_file('T1')
+            last = int.from_bytes(h.m.last_tid(), 'big')
+        elif storage == 'mapping_packed':
+            # the newest transaction wrote only an object that is garbage, and a pack removed it
+            from zverif import graph as GR_
+            from ZODB.serialize import referencesf
+            env = T.Env()
+            g_ = GR_.G(env, storage=env.mappingstorage()).build('G0')
+            x = g_.PM()
+            g_.c.root()['x'] = x
+            g_.commit('link x')
+            del g_.c.root()['x']
+            g_.commit('unlink x')
+            x['late'] = 1
+            g_.commit('write to the unreachable x')
+            s = g_.s
+            last = int.from_bytes(s.lastTransaction(), 'big')
+            s.pack(env.clock.time(), referencesf)
+            check(int.from_bytes(s.lastTransaction(), 'big') == last, 'lastTransaction changed by a pack')
         else:
             env, s, h = T.build_mapping('T1')
-        last = int.from_bytes(h.m.last_tid(), 'big')
+            last = int.from_bytes(h.m.last_tid(), 'big')
         saved = {}
         import ZODB.MappingStorage as MS
         import ZODB.utils as ZU
@@ -419,8 +437,8 @@ HARNESSES = [
             symbolic='the clock reading at reopen and 4 consecutive clock readings (free 63-bit integers)',
             bounds='4 consecutive tpc_begin after history T1, with and without close+reopen before', oracle='strict increase, above the last committed tid',
             code=['BaseStorage.tpc_begin', 'MappingStorage.tpc_begin', 'FileStorage.__init__ (tid floor)', 'utils.newTid'],
-            quick=dict(timeout=80, shards=[dict(storage='file', reopen=False), dict(storage='file', reopen=True), dict(storage='mapping', reopen=False)]),
-            thorough=dict(timeout=300, shards=[dict(storage='file', reopen=False), dict(storage='file', reopen=True), dict(storage='mapping', reopen=False)])),
+            quick=dict(timeout=80, shards=[dict(storage='file', reopen=False), dict(storage='file', reopen=True), dict(storage='mapping', reopen=False), dict(storage='mapping_packed', reopen=False)]),
+            thorough=dict(timeout=300, shards=[dict(storage='file', reopen=False), dict(storage='file', reopen=True), dict(storage='mapping', reopen=False), dict(storage='mapping_packed', reopen=False)])),
 ]
 
 MANIFEST = dict(
